@@ -46,7 +46,9 @@ type Gen struct {
 	left   int
 	// Force: field numbers of the top-level message that are always populated (with a non-default
 	// value where the kind allows), so that a series of cases covers every field of a wide message
-	Force map[protoreflect.FieldNumber]bool
+	Force       map[protoreflect.FieldNumber]bool
+	rootName    protoreflect.FullName
+	nestedForce int
 	// LongLists is the probability (percent) that a populated scalar list gets 15..129 elements
 	LongLists int
 }
@@ -235,6 +237,18 @@ func (g *Gen) Fill(m protoreflect.Message, depth int) {
 	md := m.Descriptor()
 	if depth == 0 {
 		g.left = g.Budget
+		g.rootName = md.FullName()
+	}
+	// recursive types: a forced field is also forced in ONE nested message of the root's own type,
+	// so that the same field is populated at two nesting levels of one value (not in all of them:
+	// values of self-recursive types would grow geometrically)
+	if depth == 0 {
+		g.nestedForce = 1
+	}
+	sameAsRoot := depth == 0
+	if depth > 0 && md.FullName() == g.rootName && g.nestedForce > 0 {
+		g.nestedForce--
+		sameAsRoot = true
 	}
 	oneofDone := map[string]bool{}
 	zbOrig := g.ZeroBias
@@ -248,7 +262,7 @@ func (g *Gen) Fill(m protoreflect.Message, depth int) {
 			}
 			oneofDone[string(od.Name())] = true
 			var forced protoreflect.FieldDescriptor
-			if depth == 0 {
+			if sameAsRoot && depth < g.MaxDepth {
 				for k := 0; k < od.Fields().Len(); k++ {
 					if g.Force[od.Fields().Get(k).Number()] {
 						forced = od.Fields().Get(k)
@@ -276,7 +290,7 @@ func (g *Gen) Fill(m protoreflect.Message, depth int) {
 			}
 			continue
 		}
-		force := depth == 0 && g.Force[fd.Number()]
+		force := sameAsRoot && depth < g.MaxDepth && g.Force[fd.Number()]
 		if !force && (g.R.Intn(100) < 35 || g.left <= 0) {
 			continue
 		}
